@@ -19,7 +19,8 @@ from vlib.exactq import ExactQ, to_frac
 from C13_kinds import KINDS, expected_ok, run_kind, call_strategy, OTHER_MEMBER, ALIASES
 
 PID = "C13"
-PROP_FILES = ["Prop", "Prop2"]
+PROP_FILES = ["Prop", "Prop2", "PropC04"]
+EXTRA_COQ_DIRS = ["C04"]   # read-only: C04.Model.run_filter / C04.ProofsCtor.lists_diffeq for the model-to-model tie
 ALLOWED_AXIOMS = [r"ClassicalDedekindReals\.sig_not_dec$", r"ClassicalDedekindReals\.sig_forall_dec$",
                   r"FunctionalExtensionality\.functional_extensionality_dep$", r"Classical_Prop\.classic$",
                   # primitive 63-bit integers / floats used by the `interval` tactic's reflexive evaluator
